@@ -31,6 +31,13 @@ Qed.
 Lemma some_inj {A} : forall a b : A, Some a = Some b -> a = b.
 Proof. intros a b H. congruence. Qed.
 
+(* [canon_is] of RoundTripCodecInst normalises the codec record with vm_compute, which takes minutes for the
+   UTF decoders (normal form of [byte_n x] under a binder); plain conversion is instantaneous. *)
+Ltac canon_is' name cdc H :=
+  let E := fresh "E" in
+  assert (E : assoc_get beq (B name) modelled = Some cdc) by reflexivity;
+  apply lookup_modelled in H; rewrite E in H; apply some_inj in H; subst.
+
 Lemma bends_last : forall z x, bends [z] x = true -> last x x00 = z.
 Proof. intros z x H. apply bends_iff in H. destruct H as [q ->]. apply last_last. Qed.
 
@@ -127,7 +134,7 @@ Qed.
 
 Theorem codec_ok_utf8 : forall enc c, lookup_codec enc = LOk (B "utf-8") c -> codec_ok enc.
 Proof.
-  intros enc c H. pose proof H as H0. canon_is "utf-8" utf8 H0.
+  intros enc c H. pose proof H as H0. canon_is' "utf-8" utf8 H0.
   exists utf8, [], (enc_all u8_enc_cp).
   apply (codec_laws_of_cp enc (B "utf-8") utf8 [] u8_enc_cp u8_dec).
   - exact H.
@@ -141,7 +148,7 @@ Qed.
 
 Theorem codec_ok_utf8sig : forall enc c, lookup_codec enc = LOk (B "utf-8-sig") c -> codec_ok enc.
 Proof.
-  intros enc c H. pose proof H as H0. canon_is "utf-8-sig" utf8sig H0.
+  intros enc c H. pose proof H as H0. canon_is' "utf-8-sig" utf8sig H0.
   exists utf8sig, bom8, (enc_all u8_enc_cp).
   apply (codec_laws_of_cp enc (B "utf-8-sig") utf8sig bom8 u8_enc_cp u8_dec).
   - exact H.
@@ -152,3 +159,239 @@ Proof.
   - exact u8_nl_ok.
   - vm_compute. reflexivity.
 Qed.
+
+(* ------------------------------------------------------------------------------------------------ *)
+(* utf-16 *)
+
+Lemma pair16_shape : forall le u, u < 65536 -> exists a b, pair16 le u = [a; b] /\ unit16 le a b = u.
+Proof.
+  intros le u Hu. unfold pair16, unit16. destruct le.
+  - exists (n_byte (u mod 256)), (n_byte (u / 256)). split; [reflexivity|].
+    rewrite !byte_n_n_byte by lia. lia.
+  - exists (n_byte (u / 256)), (n_byte (u mod 256)). split; [reflexivity|].
+    rewrite !byte_n_n_byte by lia. lia.
+Qed.
+
+Lemma pair16_inj : forall le u v, u < 65536 -> v < 65536 -> pair16 le u = pair16 le v -> u = v.
+Proof.
+  intros le u v Hu Hv H.
+  destruct (pair16_shape le u Hu) as [a [b [E1 E2]]]. destruct (pair16_shape le v Hv) as [a' [b' [E3 E4]]].
+  rewrite E1, E3 in H. congruence.
+Qed.
+
+Lemma u16_dec_bmp : forall le a b r,
+  rng 0xD800 0xDBFF (unit16 le a b) = false -> rng 0xDC00 0xDFFF (unit16 le a b) = false ->
+  u16_dec le (a :: b :: r) = option_map (cons (unit16 le a b)) (u16_dec le r).
+Proof. intros le a b r H1 H2. cbn [u16_dec]. rewrite H1, H2. reflexivity. Qed.
+
+Lemma u16_dec_sur : forall le a b c d r,
+  rng 0xD800 0xDBFF (unit16 le a b) = true -> rng 0xDC00 0xDFFF (unit16 le c d) = true ->
+  u16_dec le (a :: b :: c :: d :: r) =
+  option_map (cons (0x10000 + (unit16 le a b - 0xD800) * 1024 + (unit16 le c d - 0xDC00))) (u16_dec le r).
+Proof. intros le a b c d r H1 H2. cbn [u16_dec]. rewrite H1, H2. reflexivity. Qed.
+
+Lemma u16_step : forall le c x r, u16_enc_cp le c = Some x ->
+  u16_dec le (x ++ r) = option_map (cons c) (u16_dec le r).
+Proof.
+  intros le c x r H. unfold u16_enc_cp in H.
+  destruct (c <? 0x10000) eqn:E1.
+  { destruct (is_surrogate c) eqn:Es; [discriminate|]. unfold is_surrogate in Es.
+    apply some_inj in H; subst x.
+    destruct (pair16_shape le c ltac:(lia)) as [a [b [-> Eu]]]. cbn [app].
+    rewrite u16_dec_bmp; rewrite Eu; [reflexivity | unfold rng; lia | unfold rng; lia]. }
+  destruct (c <=? 0x10FFFF) eqn:E2; [|discriminate].
+  cbv zeta in H. apply some_inj in H; subst x.
+  destruct (pair16_shape le (0xD800 + (c - 0x10000) / 1024) ltac:(lia)) as [a [b [-> Ea]]].
+  destruct (pair16_shape le (0xDC00 + (c - 0x10000) mod 1024) ltac:(lia)) as [a' [b' [-> Eb]]].
+  cbn [app]. rewrite u16_dec_sur; rewrite ?Ea, ?Eb; [| unfold rng; lia | unfold rng; lia].
+  f_equal. f_equal. lia.
+Qed.
+
+Lemma pair16_len : forall le u, length (pair16 le u) = 2%nat.
+Proof. intros [|] u; reflexivity. Qed.
+
+Lemma u16_nl_ok : forall le n, nl_char n -> nl_cp_ok (u16_enc_cp le) n.
+Proof.
+  intros le n Hn. destruct (nl_char_small n Hn) as [Hs _]. intros c x y Hc Hy.
+  pose proof Hy as Hy0. unfold u16_enc_cp in Hy. destruct (n <? 0x10000) eqn:En; [|lia].
+  destruct (is_surrogate n); [discriminate|]. apply some_inj in Hy; subst y.
+  pose proof Hc as Hc0. unfold u16_enc_cp in Hc.
+  destruct (c <? 0x10000) eqn:E1.
+  { destruct (is_surrogate c); [discriminate|]. apply some_inj in Hc; subst x.
+    rewrite !pair16_len. split; [lia|]. intros Hb. apply bends_iff in Hb. destruct Hb as [q Hq].
+    apply (app_tail_eq [] q) in Hq; [|rewrite !pair16_len; reflexivity].
+    apply (pair16_inj le c n) in Hq; [exact Hq | lia | lia]. }
+  destruct (c <=? 0x10FFFF) eqn:E2; [|discriminate].
+  cbv zeta in Hc. apply some_inj in Hc; subst x.
+  rewrite app_length, !pair16_len. split; [lia|]. intros Hb. apply bends_iff in Hb. destruct Hb as [q Hq].
+  apply app_tail_eq in Hq; [|rewrite !pair16_len; reflexivity].
+  apply pair16_inj in Hq; lia.
+Qed.
+
+Theorem codec_ok_utf16le : forall enc c, lookup_codec enc = LOk (B "utf-16-le") c -> codec_ok enc.
+Proof.
+  intros enc c H. pose proof H as H0. canon_is' "utf-16-le" utf16le H0.
+  exists utf16le, [], (enc_all (u16_enc_cp true)).
+  apply (codec_laws_of_cp enc (B "utf-16-le") utf16le [] (u16_enc_cp true) (u16_dec true)).
+  - exact H.
+  - intros t. rewrite option_map_app_nil. reflexivity.
+  - intros b. reflexivity.
+  - reflexivity.
+  - exact (u16_step true).
+  - exact (u16_nl_ok true).
+  - vm_compute. reflexivity.
+Qed.
+
+Theorem codec_ok_utf16be : forall enc c, lookup_codec enc = LOk (B "utf-16-be") c -> codec_ok enc.
+Proof.
+  intros enc c H. pose proof H as H0. canon_is' "utf-16-be" utf16be H0.
+  exists utf16be, [], (enc_all (u16_enc_cp false)).
+  apply (codec_laws_of_cp enc (B "utf-16-be") utf16be [] (u16_enc_cp false) (u16_dec false)).
+  - exact H.
+  - intros t. rewrite option_map_app_nil. reflexivity.
+  - intros b. reflexivity.
+  - reflexivity.
+  - exact (u16_step false).
+  - exact (u16_nl_ok false).
+  - vm_compute. reflexivity.
+Qed.
+
+Theorem codec_ok_utf16 : forall enc c, lookup_codec enc = LOk (B "utf-16") c -> codec_ok enc.
+Proof.
+  intros enc c H. pose proof H as H0. canon_is' "utf-16" utf16 H0.
+  exists utf16, bom16le, (enc_all (u16_enc_cp true)).
+  apply (codec_laws_of_cp enc (B "utf-16") utf16 bom16le (u16_enc_cp true) (u16_dec true)).
+  - exact H.
+  - intros t. reflexivity.
+  - intros b. reflexivity.
+  - reflexivity.
+  - exact (u16_step true).
+  - exact (u16_nl_ok true).
+  - vm_compute. reflexivity.
+Qed.
+
+(* ------------------------------------------------------------------------------------------------ *)
+(* utf-32 *)
+
+Lemma u32_dec_4 : forall (le : bool) a0 a1 a2 a3 r c,
+  (if le then byte_n a0 + 256 * (byte_n a1 + 256 * (byte_n a2 + 256 * byte_n a3))
+   else byte_n a3 + 256 * (byte_n a2 + 256 * (byte_n a1 + 256 * byte_n a0))) = c ->
+  valid_cp c = true ->
+  u32_dec le (a0 :: a1 :: a2 :: a3 :: r) = option_map (cons c) (u32_dec le r).
+Proof. intros le a0 a1 a2 a3 r c E V. cbn [u32_dec]. rewrite E, V. reflexivity. Qed.
+
+Lemma u32_step : forall le c x r, u32_enc_cp le c = Some x ->
+  u32_dec le (x ++ r) = option_map (cons c) (u32_dec le r).
+Proof.
+  intros le c x r H. unfold u32_enc_cp in H. destruct (valid_cp c) eqn:V; [|discriminate].
+  apply some_inj in H; subst x.
+  assert (Hc : c <= 0x10FFFF) by (unfold valid_cp in V; lia).
+  unfold quad32. destruct le; cbn [app]; apply u32_dec_4; try exact V;
+    rewrite !byte_n_n_byte by (apply N.mod_lt; discriminate); lia.
+Qed.
+
+Lemma u32_len : forall le c x, u32_enc_cp le c = Some x -> length x = 4%nat.
+Proof.
+  intros le c x H. unfold u32_enc_cp in H. destruct (valid_cp c); [|discriminate].
+  apply some_inj in H; subst x. destruct le; reflexivity.
+Qed.
+
+Lemma u32_nl_ok : forall le n, nl_char n -> nl_cp_ok (u32_enc_cp le) n.
+Proof.
+  intros le n _. apply (nl_cp_ok_same_len _ (u32_dec le)); [reflexivity | apply u32_step |].
+  intros c x y Hx Hy. rewrite (u32_len _ _ _ Hx), (u32_len _ _ _ Hy). reflexivity.
+Qed.
+
+Theorem codec_ok_utf32le : forall enc c, lookup_codec enc = LOk (B "utf-32-le") c -> codec_ok enc.
+Proof.
+  intros enc c H. pose proof H as H0. canon_is' "utf-32-le" utf32le H0.
+  exists utf32le, [], (enc_all (u32_enc_cp true)).
+  apply (codec_laws_of_cp enc (B "utf-32-le") utf32le [] (u32_enc_cp true) (u32_dec true)).
+  - exact H.
+  - intros t. rewrite option_map_app_nil. reflexivity.
+  - intros b. reflexivity.
+  - reflexivity.
+  - exact (u32_step true).
+  - exact (u32_nl_ok true).
+  - vm_compute. reflexivity.
+Qed.
+
+Theorem codec_ok_utf32be : forall enc c, lookup_codec enc = LOk (B "utf-32-be") c -> codec_ok enc.
+Proof.
+  intros enc c H. pose proof H as H0. canon_is' "utf-32-be" utf32be H0.
+  exists utf32be, [], (enc_all (u32_enc_cp false)).
+  apply (codec_laws_of_cp enc (B "utf-32-be") utf32be [] (u32_enc_cp false) (u32_dec false)).
+  - exact H.
+  - intros t. rewrite option_map_app_nil. reflexivity.
+  - intros b. reflexivity.
+  - reflexivity.
+  - exact (u32_step false).
+  - exact (u32_nl_ok false).
+  - vm_compute. reflexivity.
+Qed.
+
+Theorem codec_ok_utf32 : forall enc c, lookup_codec enc = LOk (B "utf-32") c -> codec_ok enc.
+Proof.
+  intros enc c H. pose proof H as H0. canon_is' "utf-32" utf32 H0.
+  exists utf32, bom32le, (enc_all (u32_enc_cp true)).
+  apply (codec_laws_of_cp enc (B "utf-32") utf32 bom32le (u32_enc_cp true) (u32_dec true)).
+  - exact H.
+  - intros t. reflexivity.
+  - intros b. reflexivity.
+  - reflexivity.
+  - exact (u32_step true).
+  - exact (u32_nl_ok true).
+  - vm_compute. reflexivity.
+Qed.
+
+(* ------------------------------------------------------------------------------------------------ *)
+(* the hypotheses are satisfiable (also by non-canonical spellings), and a round trip on a concrete text *)
+
+Example lookup_utf8_ex : lookup_codec (B "UTF8") = LOk (B "utf-8") utf8.
+Proof. reflexivity. Qed.
+Example lookup_utf8sig_ex : lookup_codec (B "utf_8_sig") = LOk (B "utf-8-sig") utf8sig.
+Proof. reflexivity. Qed.
+Example lookup_utf16le_ex : lookup_codec (B "UTF-16LE") = LOk (B "utf-16-le") utf16le.
+Proof. reflexivity. Qed.
+Example lookup_utf16be_ex : lookup_codec (B "utf_16_be") = LOk (B "utf-16-be") utf16be.
+Proof. reflexivity. Qed.
+Example lookup_utf16_ex : lookup_codec (B "U16") = LOk (B "utf-16") utf16.
+Proof. reflexivity. Qed.
+Example lookup_utf32le_ex : lookup_codec (B "utf_32_le") = LOk (B "utf-32-le") utf32le.
+Proof. reflexivity. Qed.
+Example lookup_utf32be_ex : lookup_codec (B "UTF-32BE") = LOk (B "utf-32-be") utf32be.
+Proof. reflexivity. Qed.
+Example lookup_utf32_ex : lookup_codec (B "U32") = LOk (B "utf-32") utf32.
+Proof. reflexivity. Qed.
+
+Example codec_ok_utf_ex :
+  codec_ok (B "UTF8") /\ codec_ok (B "utf_8_sig") /\ codec_ok (B "UTF-16LE") /\ codec_ok (B "utf_16_be") /\
+  codec_ok (B "U16") /\ codec_ok (B "utf_32_le") /\ codec_ok (B "UTF-32BE") /\ codec_ok (B "U32").
+Proof.
+  repeat split.
+  - exact (codec_ok_utf8 _ _ lookup_utf8_ex).
+  - exact (codec_ok_utf8sig _ _ lookup_utf8sig_ex).
+  - exact (codec_ok_utf16le _ _ lookup_utf16le_ex).
+  - exact (codec_ok_utf16be _ _ lookup_utf16be_ex).
+  - exact (codec_ok_utf16 _ _ lookup_utf16_ex).
+  - exact (codec_ok_utf32le _ _ lookup_utf32le_ex).
+  - exact (codec_ok_utf32be _ _ lookup_utf32be_ex).
+  - exact (codec_ok_utf32 _ _ lookup_utf32_ex).
+Qed.
+
+(* one code point of each UTF-8 length / a surrogate pair in UTF-16, through each decode step *)
+Example step_ex :
+  u8_dec [x41; xc3; xa9; xe2; x82; xac; xf0; x9f; x98; x80] = Some [0x41; 0xE9; 0x20AC; 0x1F600] /\
+  u8_enc_cp 0x1F600 = Some [xf0; x9f; x98; x80] /\
+  u16_enc_cp true 0x1F600 = Some [x3d; xd8; x00; xde] /\ u16_dec true [x3d; xd8; x00; xde] = Some [0x1F600] /\
+  u32_enc_cp false 0x1F600 = Some [x00; x01; xf6; x00] /\ u32_dec false [x00; x01; xf6; x00] = Some [0x1F600].
+Proof. vm_compute. repeat split. Qed.
+
+Print Assumptions codec_ok_utf8.
+Print Assumptions codec_ok_utf8sig.
+Print Assumptions codec_ok_utf16le.
+Print Assumptions codec_ok_utf16be.
+Print Assumptions codec_ok_utf16.
+Print Assumptions codec_ok_utf32le.
+Print Assumptions codec_ok_utf32be.
+Print Assumptions codec_ok_utf32.
